@@ -81,16 +81,54 @@ fn sm_wake_blocked() {
 
 }
 
-static mut LATE: u32 = 0;
-static mut LATE_SHARED: *const Shared = std::ptr::null();
+fn wake_case(n: usize, unsubmitted: u32) {
+    k::install(k::base_table());
+    k::sq_set(0, unsubmitted);
+    let shared = k::build_shared(2, false, false);
+    push_blocked(&shared, n);
+    shared.wake_blocked_futures();
+    check_conservation(&shared, n, 0, (2 - unsubmitted) as usize);
+    std::mem::forget(shared);
+}
+
+wk! {
+
+//@ prop: C03
+//@ tier: quick
+//@ what: concrete instance of sm_wake_blocked (3 waiters, 2 free slots): exists so that a counterexample has a cheap native replay (the symbolic harness's trace generation exceeds the memory cap)
+//@ bound: n = 3, 0 unsubmitted of 2
+//@ encodes: io_uring::Shared::wake_blocked_futures
+//@ stubs: crate::lock -> try_lock model; Waker -> direct calls; <core::io::CustomOwner as Drop>::drop -> no-op
+//@ concrete: yes
+fn sm_wake_blocked_3_waiters_2_free() {
+    wake_case(3, 0);
+    kani::cover!(true);
+}
+
+//@ prop: C03
+//@ tier: quick
+//@ what: concrete instance of sm_wake_blocked (2 waiters, 1 free slot), for a cheap native replay
+//@ bound: n = 2, 1 unsubmitted of 2
+//@ encodes: io_uring::Shared::wake_blocked_futures
+//@ stubs: crate::lock -> try_lock model; Waker -> direct calls; <core::io::CustomOwner as Drop>::drop -> no-op
+//@ concrete: yes
+fn sm_wake_blocked_2_waiters_1_free() {
+    wake_case(2, 1);
+    kani::cover!(true);
+}
+
+}
+
+static mut LATE: crate::verif_stubs::V<u32> = crate::verif_stubs::V::new(0);
+static mut LATE_SHARED: crate::verif_stubs::V<*const Shared> = crate::verif_stubs::V::new(std::ptr::null());
 
 /// Yield hook: when wake_blocked_futures re-takes the list lock, another
 /// thread has meanwhile registered one more waiter (id 3).
 fn late_arrival(kind: u32) {
     unsafe {
-        if kind == verif_hooks::YIELD_LOCK && LATE > 0 {
-            LATE -= 1;
-            let list: &mut Vec<std::task::Waker> = &mut *(*LATE_SHARED).blocked_futures.data_ptr();
+        if kind == verif_hooks::YIELD_LOCK && LATE.v > 0 {
+            LATE.v -= 1;
+            let list: &mut Vec<std::task::Waker> = &mut *(*LATE_SHARED.v).blocked_futures.data_ptr();
             list.push(k::waker(3));
         }
     }
@@ -117,12 +155,12 @@ fn sm_wake_blocked_late() {
     kani::assume(n >= 1 && n <= 2);
     push_blocked(&shared, n);
     unsafe {
-        LATE = 1;
-        LATE_SHARED = &shared;
+        LATE.v = 1;
+        LATE_SHARED.v = &shared;
     }
     shared.wake_blocked_futures();
-    let came = 1 - unsafe { LATE } as usize;
-    unsafe { LATE = 0 };
+    let came = 1 - unsafe { LATE.v } as usize;
+    unsafe { LATE.v = 0 };
     check_conservation(&shared, n, came, (2 - unsubmitted) as usize);
     assert!(came == 0 || k::wakes(3) == 1 || k::waker_clones(3) >= 1, "late waiter lost");
     kani::cover!(came == 1 && n == 2);
@@ -131,24 +169,24 @@ fn sm_wake_blocked_late() {
 
 }
 
-static mut ENTER_RC: i32 = 0;
-static mut ENTER_ERRNO: i32 = 0;
-static mut ENTER_CONSUMES: u32 = 0;
-static mut ENTER_TO_SUBMIT: u32 = 0;
+static mut ENTER_RC: crate::verif_stubs::V<i32> = crate::verif_stubs::V::new(0);
+static mut ENTER_ERRNO: crate::verif_stubs::V<i32> = crate::verif_stubs::V::new(0);
+static mut ENTER_CONSUMES: crate::verif_stubs::V<u32> = crate::verif_stubs::V::new(0);
+static mut ENTER_TO_SUBMIT: crate::verif_stubs::V<u32> = crate::verif_stubs::V::new(0);
 
 /// io_uring_enter model: the kernel consumes ENTER_CONSUMES submissions, then
 /// returns that count, or fails with ENTER_ERRNO.
 unsafe fn enter_model(_fd: libc::c_int, to_submit: libc::c_uint, _min: libc::c_uint, _flags: libc::c_uint, _arg: *const libc::c_void, _size: usize) -> libc::c_int {
     unsafe {
-        ENTER_TO_SUBMIT = to_submit;
+        ENTER_TO_SUBMIT.v = to_submit;
         let mem = k::sq_mem();
         let h = mem.head.load(std::sync::atomic::Ordering::Relaxed);
-        mem.head.store(h.wrapping_add(ENTER_CONSUMES), std::sync::atomic::Ordering::Relaxed);
-        if ENTER_ERRNO != 0 {
-            *libc::__errno_location() = ENTER_ERRNO;
+        mem.head.store(h.wrapping_add(ENTER_CONSUMES.v), std::sync::atomic::Ordering::Relaxed);
+        if ENTER_ERRNO.v != 0 {
+            *libc::__errno_location() = ENTER_ERRNO.v;
             return -1;
         }
-        ENTER_RC
+        ENTER_RC.v
     }
 }
 
@@ -171,9 +209,9 @@ fn sm_enter_offers_room() {
     kani::assume(outcome < 4);
     kani::assume(outcome == 0 || consumes == 0);
     unsafe {
-        ENTER_CONSUMES = consumes;
-        ENTER_RC = consumes as i32;
-        ENTER_ERRNO = match outcome {
+        ENTER_CONSUMES.v = consumes;
+        ENTER_RC.v = consumes as i32;
+        ENTER_ERRNO.v = match outcome {
             0 => 0,
             1 => libc::ETIME,
             2 => libc::EINTR,
@@ -184,7 +222,7 @@ fn sm_enter_offers_room() {
     table.io_uring_enter2 = Some(enter_model);
     k::install(table);
     let r = shared.enter(1, libc::IORING_ENTER_GETEVENTS, Some(std::time::Duration::from_millis(1)));
-    assert!(unsafe { ENTER_TO_SUBMIT } == 2, "the kernel is told about every unsubmitted entry");
+    assert!(unsafe { ENTER_TO_SUBMIT.v } == 2, "the kernel is told about every unsubmitted entry");
     assert!(r.is_ok() == (outcome < 3), "timeout/interrupt are not errors");
     if outcome == 0 && consumes > 0 {
         assert!(k::wakes(0) == 1, "room became available: the waiting future is woken");
